@@ -224,7 +224,12 @@ func (c *expCompiler) ProcessUnOpExp(u ast.UnOp) {
 }
 
 func (c *expCompiler) CompileExp(e ast.ExpNode) {
+	*c.expDepth++
+	if *c.expDepth > maxExpDepth {
+		panic(Error{Where: e, Message: "expression too complex"})
+	}
 	e.ProcessExp(c)
+	*c.expDepth--
 }
 
 //
